@@ -767,6 +767,13 @@ func (a *Agent) gatherCandidatesSrflxMapped(ctx context.Context, networkTypes []
 					continue
 				}
 
+				// Same RFC 8445 5.1.1.1 exclusions as for interface addresses (site-local, IPv4-compatible).
+				if mappedIP.To4() == nil && len(mappedIP) == net.IPv6len && !isSupportedIPv6Partial(mappedIP) {
+					closeConnAndLog(currentConn, a.log, "external IP %s is not a usable IPv6 address", mappedIP)
+
+					continue
+				}
+
 				srflxConfig := CandidateServerReflexiveConfig{
 					Network:   network,
 					Address:   mappedIP.String(),
